@@ -62,8 +62,8 @@ def showMsg : Msg → String
   | .roomDeleted => "roomdeleted"
   | .hangup v => s!"hangup({enc v})"
 
-def showOuts (outs : List (Nat × Msg)) : List String :=
-  sortStrings (outs.map fun (c, m) => s!"c{c}={showMsg m}")
+def showOuts (outs : List Out) : List String :=
+  sortStrings (outs.map fun o => s!"c{o.conn}={showMsg o.msg}")
 
 /-! ### ops -/
 
